@@ -16,8 +16,8 @@ PROPERTY = "C16"
 RULE = (
     "Hypothesis draws a model description: a peak (Gaussian / Lorentzian / pseudo-Voigt) with "
     "amplitude +-(1e-6..1e6), scale 1e-6..1e6, fraction in [0,1] (endpoints and 1e-12-neighbours "
-    "over-weighted) and a location either anywhere in +-1e6 (incl. 0) or within 1e3 scales of 0 "
-    "(quadrature / FWHM facets), a polynomial of degree 1..6 with coefficients +-(1e-6..1e6) or 0, "
+    "over-weighted) and a location either anywhere in +-1e6 (incl. 0) or within 1e3 (quadrature "
+    "facet) / 1e2 (FWHM facet) scales of 0, a polynomial of degree 1..6 with coefficients +-(1e-6..1e6) or 0, "
     "or a composite (depth <= 2, built by CompositeModel or '+') of those; every node carries a "
     "prefix from arbitrary short text (empty, ASCII, Unicode, strings equal to parameter names); "
     "x and y units come from {angstrom, us, meV, counts, dimensionless} and the parameter units are "
@@ -26,18 +26,19 @@ RULE = (
     "x = mu + sigma tan u, exactly representable mirror points, the model's own fwhm(), my own "
     "concatenation of prefixes, and the unit algebra above. Non-trivial: integral - always (the "
     "amplitude is never 0); symmetry - some mirrored pair has a non-zero value; fwhm - always; "
-    "values - some compared element is non-zero and x is not the location only; prefix - the two "
-    "prefix assignments differ; refusal - always (each case carries one mutation of names or "
-    "units). Distinct = distinct descriptor hash."
+    "values - some compared element is non-zero and x is not the location only; prefix - the "
+    "second prefix assignment or the with_prefix() argument differs from the first; refusal - "
+    "always (each case carries one mutation of names or units). Distinct = distinct descriptor "
+    "hash."
 )
 TOLERANCES = {
     "integral_rel": 1e-9,
     "symmetry_rel": 1e-13,
-    "fwhm_rel": "1e-12 + 2*|x_stored - (loc +- fwhm/2)|/scale  (argument rounding, exact in mp)",
+    "fwhm_rel": 1e-12,
     "peak_value_rel": "1e-12 for the Lorentzian term, 1e-12*max(1, z/50) for the Gaussian term "
                       "exp(-z) (condition number of exp), plus 1e-300*|A|/scale absolute "
                       "(underflow of exp)",
-    "polynomial_abs": "1e-12 * sum_i |a_i x^i|",
+    "polynomial_abs": "1e-12 * sum_i |a_i x^i| + 1e-280 (float64 underflow of x^i for |x| < 1e-50)",
     "composite_vs_parts": "bit-identical to left(x) + right(x)",
     "prefix": "bit-identical",
 }
@@ -59,6 +60,16 @@ PEAK_NAMES = {
     "pseudo_voigt": ["amplitude", "loc", "scale", "fraction"],
 }
 TOL = mp.mpf("1e-12")
+UNDERFLOW_ABS = mp.mpf("1e-280")   # |x| << 1: powers of x below the float64 range may flush to 0
+
+# worst observed error / tolerance per oracle (diagnostic only: written, never read, by the checks)
+WORST = {}
+
+
+def _note(key, ratio):
+    if ratio > WORST.get(key, 0.0):
+        WORST[key] = float(ratio)
+
 
 # ------------------------------------------------------------------ strategies
 
@@ -68,37 +79,51 @@ PREFIX_POOL = [
 ]
 
 
+# strategies are built once (building them per draw dominated the run time in a first version)
+_PREFIXES = st.one_of(
+    st.just(""),
+    st.sampled_from(PREFIX_POOL),
+    st.text(max_size=5),
+    st.text(alphabet=string.ascii_letters + string.digits + "_", max_size=8),
+)
+_NONEMPTY_PREFIXES = st.one_of(st.sampled_from([p for p in PREFIX_POOL if p]),
+                               st.text(min_size=1, max_size=5))
+_TINY = st.floats(-12, -1).map(lambda e: 10.0**e)
+_FRACTIONS = st.one_of(
+    st.just(0.0), st.just(1.0), st.just(0.5),
+    st.floats(0.0, 1.0, allow_nan=False), st.floats(0.0, 1.0, allow_nan=False),
+    _TINY, _TINY.map(lambda d: 1.0 - d),
+)
+_SIGNED_MAG = signed(logfloat(-6, 6))          # +-(1e-6 .. 1e6)
+_SCALES = logfloat(-6, 6)
+_LOC_ANY = st.one_of(_SIGNED_MAG, _SIGNED_MAG, _SIGNED_MAG, st.just(0.0), st.sampled_from([1e6, -1e6]))
+_LOC_REL = st.one_of(st.just(0.0), signed(logfloat(-3, 3)), signed(logfloat(-3, 3)), signed(logfloat(-3, 3)))
+_LOC_REL100 = st.one_of(st.just(0.0), signed(logfloat(-3, 2)), signed(logfloat(-3, 2)), signed(logfloat(-3, 2)))
+_COEF = st.one_of(_SIGNED_MAG, _SIGNED_MAG, _SIGNED_MAG, st.just(0.0), st.sampled_from([1.0, -1.0]))
+_UNITS = st.sampled_from(UNIT_POOL)
+# an x point: (mode, peak index, t in [-1, 1]); turned into a value by _x_value
+_XPOINT = st.tuples(st.integers(0, 6), st.integers(0, 2), st.floats(-1.0, 1.0, allow_nan=False))
+
+
 def prefixes():
-    return st.one_of(
-        st.just(""),
-        st.sampled_from(PREFIX_POOL),
-        st.text(max_size=5),
-        st.text(alphabet=string.ascii_letters + string.digits + "_", max_size=8),
-    )
+    return _PREFIXES
 
 
 def fractions01():
-    tiny = st.floats(-12, -1).map(lambda e: 10.0**e)
-    return st.one_of(
-        st.just(0.0), st.just(1.0), st.just(0.5),
-        st.floats(0.0, 1.0, allow_nan=False), st.floats(0.0, 1.0, allow_nan=False),
-        tiny, tiny.map(lambda d: 1.0 - d),
-    )
+    return _FRACTIONS
 
 
 def locations_any():
-    return st.one_of(signed(logfloat(-6, 6)), signed(logfloat(-6, 6)), signed(logfloat(-6, 6)),
-                     st.just(0.0), st.sampled_from([1e6, -1e6]))
+    return _LOC_ANY
 
 
 @st.composite
 def peak_spec(draw, mode, kinds=PEAKS, prefix=None):
     kind = draw(st.sampled_from(kinds))
-    amplitude = draw(signed(logfloat(-6, 6)))
-    scale = draw(logfloat(-6, 6))
-    if mode == "near":
-        r = draw(st.one_of(st.just(0.0), signed(logfloat(-3, 3)), signed(logfloat(-3, 3)),
-                           signed(logfloat(-3, 3))))
+    amplitude = draw(_SIGNED_MAG)
+    scale = draw(_SCALES)
+    if mode in ("near", "near100"):
+        r = draw(_LOC_REL if mode == "near" else _LOC_REL100)
         loc = max(-1e6, min(1e6, r * scale))
     else:
         loc = draw(locations_any())
@@ -111,14 +136,18 @@ def peak_spec(draw, mode, kinds=PEAKS, prefix=None):
 @st.composite
 def poly_spec(draw):
     degree = draw(st.integers(1, 6))
-    coef = st.one_of(signed(logfloat(-6, 6)), signed(logfloat(-6, 6)), signed(logfloat(-6, 6)),
-                     st.just(0.0), st.sampled_from([1.0, -1.0]))
-    coeffs = draw(st.lists(coef, min_size=degree + 1, max_size=degree + 1))
+    coeffs = [draw(_COEF) for _ in range(degree + 1)]
     return {"kind": "polynomial", "prefix": draw(prefixes()), "coeffs": coeffs}
 
 
-def leaf_spec(mode="any"):
-    return st.one_of(peak_spec(mode), peak_spec(mode), poly_spec())
+_LEAF = None
+
+
+def leaf_spec():
+    global _LEAF
+    if _LEAF is None:
+        _LEAF = st.one_of(peak_spec("any"), peak_spec("any"), poly_spec())
+    return _LEAF
 
 
 def full_names(spec):
@@ -169,8 +198,14 @@ def composite_spec(draw, depth=2, free_prefixes=False):
     return spec if free_prefixes else disambiguate(spec)
 
 
+_MODEL = None
+
+
 def model_spec():
-    return st.one_of(peak_spec("any"), peak_spec("any"), poly_spec(), composite_spec())
+    global _MODEL
+    if _MODEL is None:
+        _MODEL = st.one_of(peak_spec("any"), peak_spec("any"), poly_spec(), composite_spec())
+    return _MODEL
 
 
 def peak_leaves(spec):
@@ -179,22 +214,37 @@ def peak_leaves(spec):
     return [spec] if spec["kind"] in PEAKS else []
 
 
+def _x_value(pt, leaves):
+    mode, j, t = pt
+    if mode >= 3 and not leaves:
+        mode %= 3
+    if mode == 0:       # anywhere, log-uniform magnitude 1e-6..1e6, either sign
+        return math.copysign(10.0 ** (12.0 * abs(t) - 6.0), t)
+    if mode == 1:       # anywhere, uniform
+        return t * 1e6
+    if mode == 2:
+        return 0.0
+    lf = leaves[j % len(leaves)]["params"]
+    if mode == 3:       # out to +-40 scales around a peak
+        return lf["loc"] + 40.0 * t * lf["scale"]
+    if mode in (4, 5):  # within +-3 scales
+        return lf["loc"] + 3.0 * t * lf["scale"]
+    return lf["loc"]
+
+
 @st.composite
 def x_points(draw, spec, min_size=1, max_size=8):
     """x values: around the peaks (in units of their scale), at the locations, anywhere, 0."""
     leaves = peak_leaves(spec)
-    parts = [signed(logfloat(-6, 6)), st.just(0.0), st.floats(-1e6, 1e6, allow_nan=False)]
-    for lf in leaves[:3]:
-        mu, s = lf["params"]["loc"], lf["params"]["scale"]
-        parts.append(st.floats(-40, 40, allow_nan=False).map(lambda t, mu=mu, s=s: mu + t * s))
-        parts.append(st.floats(-3, 3, allow_nan=False).map(lambda t, mu=mu, s=s: mu + t * s))
-        parts.append(st.just(mu))
-    return draw(st.lists(st.one_of(*parts), min_size=min_size, max_size=max_size))
+    pts = draw(st.lists(_XPOINT, min_size=min_size, max_size=max_size))
+    return [_x_value(pt, leaves) for pt in pts]
 
 
-@st.composite
-def units_xy(draw):
-    return draw(st.sampled_from(UNIT_POOL)), draw(st.sampled_from(UNIT_POOL))
+_UNITS_XY = st.tuples(_UNITS, _UNITS)
+
+
+def units_xy():
+    return _UNITS_XY
 
 
 # ------------------------------------------------------------------ building
@@ -303,7 +353,7 @@ def ref_eval(spec, xv):
         return a + b, ta + tb
     if k == "polynomial":
         v, s = ps.polynomial(xv, spec["coeffs"])
-        return v, TOL * s
+        return v, TOL * s + UNDERFLOW_ABS
     p = spec["params"]
     A, mu, s = p["amplitude"], p["loc"], p["scale"]
     floor = mp.mpf("1e-300") * abs(mp.mpf(A)) / mp.mpf(s)
@@ -331,6 +381,8 @@ def compare_values(got, spec, xs, what):
         if not math.isfinite(gv):
             raise Violation("non-finite", f"{what}: f({xv!r}) = {gv}, reference {mp.nstr(ref, 17)}")
         err = abs(mp.mpf(gv) - ref)
+        if tol > 0:
+            _note("value:" + spec["kind"], err / tol)
         if err > tol:
             rel = err / abs(ref) if ref != 0 else mp.inf
             raise Violation(
@@ -434,6 +486,7 @@ def check_integral(case):
     # int f dx = int f(mu + s tan u) s sec^2(u) du
     integral = math.fsum(y * w * p["scale"] * (1.0 + tn * tn))
     err = abs(integral / p["amplitude"] - 1.0)
+    _note("integral:" + spec["kind"], err / TOLERANCES["integral_rel"])
     if not err <= TOLERANCES["integral_rel"]:
         raise Violation(
             "integral",
@@ -484,6 +537,8 @@ def check_symmetry(case):
         a, b = float(y[j]), float(y[n + j])
         if not (math.isfinite(a) and math.isfinite(b)):
             raise Violation("non-finite", f"{spec['kind']}: f(mu-d)={a}, f(mu+d)={b}")
+        if a != b:
+            _note("symmetry:" + spec["kind"], abs(a - b) / (TOLERANCES["symmetry_rel"] * max(abs(a), abs(b))))
         if abs(a - b) > TOLERANCES["symmetry_rel"] * max(abs(a), abs(b)):
             raise Violation(
                 "symmetry",
@@ -504,7 +559,7 @@ def check_symmetry(case):
 @st.composite
 def fwhm_cases(draw):
     xu, yu = draw(units_xy())
-    return {"spec": draw(peak_spec("near")), "xunit": xu, "yunit": yu}
+    return {"spec": draw(peak_spec("near100")), "xunit": xu, "yunit": yu}
 
 
 def check_fwhm(case):
@@ -530,11 +585,12 @@ def check_fwhm(case):
     peak, left, right = (mp.mpf(float(v)) for v in got.values)
     if peak == 0 or not all(math.isfinite(float(v)) for v in got.values):
         raise Violation("fwhm-value", f"{spec['kind']}: f(loc) = {got.values[0]!r}")
-    for side, xv, fv, sign in (("-", xs[1], left, -1), ("+", xs[2], right, 1)):
-        # exact rounding error of forming loc +- fwhm/2 in float64; |f'/f| <= 1.39/scale at half max
-        delta = abs(mp.mpf(xv) - (mp.mpf(mu) + sign * mp.mpf(h)))
-        tol = TOL + 2 * delta / mp.mpf(p["scale"])
+    for side, fv in (("-", left), ("+", right)):
+        # forming loc +- fwhm/2 in float64 perturbs the argument by <= ulp(100 scale)/2, i.e. the
+        # value by <= 1.39 * 1.1e-14 relative (|f'/f| <= 1.39/scale at half maximum): inside 1e-12
+        tol = TOL
         err = abs(fv / (peak / 2) - 1)
+        _note("fwhm:" + spec["kind"], err / tol)
         if err > tol:
             raise Violation(
                 "fwhm",
@@ -724,7 +780,7 @@ def check_prefix(case):
         w1, w2, w3 = m1.fwhm(p1), m2.fwhm(p2), m3.fwhm(p3)
         if not (sc.identical(w1, w2) and sc.identical(w1, w3)):
             raise Violation("prefix-dependence", f"fwhm changes with the prefix: {w1!r}, {w2!r}, {w3!r}")
-    differ = full_names(spec1) != full_names(spec2) and spec1["prefix"] != top3
+    differ = full_names(spec1) != full_names(spec2) or spec1["prefix"] != top3
     return labs, differ
 
 
@@ -732,10 +788,13 @@ def check_prefix(case):
 
 NAME_MUTATIONS = ["missing", "extra", "unprefixed", "wrong_prefix", "renamed", "empty"]
 UNIT_MUTATIONS = ["bad_unit", "amplitude_unit", "mixed_y"]
+# bad_unit first and twice: Hypothesis over-weights the first element, and it has the most sub-classes
+_MUTATION_KINDS = st.sampled_from(UNIT_MUTATIONS + NAME_MUTATIONS + ["bad_unit", "clash"])
 
 
 def _other_unit(draw, not_this):
-    return draw(st.sampled_from([u for u in UNIT_POOL if u != not_this]))
+    others = [u for u in UNIT_POOL if u != not_this]
+    return others[draw(st.integers(0, len(others) - 1))]
 
 
 @st.composite
@@ -745,7 +804,7 @@ def refusal_cases(draw):
     names = full_names(spec)
     table = param_table(spec, yu)
     xs = draw(x_points(spec, min_size=1, max_size=4))
-    kind = draw(st.sampled_from(NAME_MUTATIONS + UNIT_MUTATIONS + ["bad_unit", "clash"]))
+    kind = draw(_MUTATION_KINDS)
     mut = {"type": kind}
     if kind == "missing":
         mut["name"] = draw(st.sampled_from(names))
@@ -763,8 +822,7 @@ def refusal_cases(draw):
             # needs a non-empty top-level prefix ('+' always gives an empty one: use the constructor)
             if spec["kind"] == "composite":
                 spec["via_add"] = False
-            spec["prefix"] = draw(st.one_of(st.sampled_from([p for p in PREFIX_POOL if p]),
-                                            st.text(min_size=1, max_size=5)))
+            spec["prefix"] = draw(_NONEMPTY_PREFIXES)
             names = full_names(spec)
         if kind == "wrong_prefix":
             other = draw(prefixes())
@@ -926,7 +984,7 @@ FACETS = [
           doc="pointwise docstring formula in mpmath; polynomial = sum a_i x^i; composite = left + right; "
               "result unit = y unit, sizes = x sizes"),
     Facet("prefix", check_prefix, strategy=lambda tier: prefix_cases(),
-          quick=(2, 300), thorough=(16, 2500), min_nontrivial=0.5,
+          quick=(2, 300), thorough=(16, 2500), min_nontrivial=0.3,
           doc="two prefix assignments and with_prefix give bit-identical values, bounds, guesses, fwhm; "
               "param_names / param_bounds / guess keys carry the prefix"),
     Facet("refusal", check_refusal, strategy=lambda tier: refusal_cases(),
